@@ -327,7 +327,7 @@ MODULES = [(EDGE_MODULE, list(edge_contracts)), (WALK_MODULE, ["RedunBackendDb.i
 
 def bounded_transfers(tier, seed):
     from pvc import bounded
-    return [bounded.run(PROPERTY, "generated-transfers", rule="repositories built by generated histories (fan-out executions, an execution served from the cache in one step, file results, tags with an update and "
+    return [bounded.run(PROPERTY, "generated-transfers", env=({} if tier == "quick" else {"C23_DEEP": "1"}), timeout=3000, rule="repositories built by generated histories (fan-out executions, an execution served from the cache in one step, file results, tags with an update and "
                         "deletions) transferred through iter_record_ids / get_records / JSON lines / put_records into fresh, already populated and incrementally updated destinations: the rows owned by the "
                         "transferred executions (independent ownership walk) are equal in both repositories, child edges in the same order, tags with the same current / superseded status; repeating adds nothing")]
 
